@@ -50,10 +50,11 @@ class Fact:
     """a universally quantified assumption  forall i. body(i)  kept as a closure
     and instantiated at the index terms an obligation mentions"""
 
-    def __init__(self, name, body, arity=1):
+    def __init__(self, name, body, arity=1, auto=True):
         self.name = name
         self.body = body
         self.arity = arity
+        self.auto = auto  # instantiated automatically at harvested index terms (else only by contract hints)
 
 
 class Ctx:
@@ -103,8 +104,8 @@ class Ctx:
         self.aux.append(alg.lift(t))
         self.solver.add(alg.lift(t))
 
-    def add_fact(self, name, body, arity=1):
-        self.facts.append(Fact(name, body, arity))
+    def add_fact(self, name, body, arity=1, auto=True):
+        self.facts.append(Fact(name, body, arity, auto))
 
     def use(self, name):
         self.used.add(name)
